@@ -13,12 +13,16 @@ def phaseStates (ph : String) : List String :=
 def states : List String := allStates lifecycle
 
 /-- states in which a constrained method may run (`add_constraint` complements `restrict_during`) -/
-def permitted (e : String × String × Mode × List String) : List String :=
-  match e.2.2.1 with
-  | .allow => e.2.2.2
-  | .restrict => states.filter (fun s => !e.2.2.2.contains s)
+def permitted (e : Con) : List String :=
+  match e.mode with
+  | .allow => e.states
+  | .restrict => states.filter (fun s => !e.states.contains s)
 
-def permittedOf (m : String) : Option (List String) := (Viv.Gen.constraints.find? (·.2.1 == m)).map permitted
+def permittedOf (m : String) : Option (List String) := (Viv.Gen.constraints.find? (·.method == m)).map permitted
+
+/-- permitted states of the constraint declared in `file` for `method` -/
+def permittedAt (file method : String) : Option (List String) :=
+  (Viv.Gen.constraints.find? (fun e => e.file == file && e.method == method)).map permitted
 
 /-- `ConstraintMaker` wrapper: the check reads the current state at call time; unconstrained ⇒ admitted -/
 def admitted (m : String) (st : String) : Bool :=
